@@ -1759,6 +1759,9 @@ class Method:
             else:
                 params.add(body)
 
+        # ``input.fields`` is keyed by the disambiguated (Python) field names,
+        # the http rule uses the proto names.
+        params = {p + "_" if p in utils.RESERVED_NAMES else p for p in params}
         return set(self.input.fields) - params
 
     @property
